@@ -3,16 +3,22 @@ use serde_json::Value;
 use crate::common::{machinery_error, Tier};
 
 pub mod c06;
+pub mod loopprops;
 
 pub fn run(id: &str, tier: Tier) -> i32 {
     match id {
+        "C01" => loopprops::run_c01(tier),
+        "C04" => loopprops::run_c04(tier),
+        "C05" => loopprops::run_c05(tier),
         "C06" => c06::run(tier),
+        "C08" => loopprops::run_c08(tier),
         _ => machinery_error(&format!("unknown property id {id}")),
     }
 }
 
 pub fn replay(id: &str, case: &Value) -> i32 {
     match id {
+        "C01" | "C04" | "C05" | "C08" => loopprops::replay(id, case),
         "C06" => c06::replay(case),
         _ => machinery_error(&format!("unknown property id {id}")),
     }
